@@ -589,16 +589,27 @@ func intrMutexUnlock(it *Interp, g *G, fr *Frame, args []Value, site ssa.Instruc
 	return nil, stOK
 }
 
-// RWMutex: slot 0 = writer held, slot 4 = reader count.
+// RWMutex: slot 0 = writer held, slot 4 = reader count, slot 2 = writers waiting.
+// Like the runtime's, a waiting writer blocks new readers (writer preference).
 func intrRWLock(it *Interp, g *G, fr *Frame, args []Value, site ssa.Instruction) (Value, stepResult) {
 	p := args[0].(*Ptr)
 	wr := p.obj.get(p.off).(*Term)
 	rd := p.obj.get(p.off + 4).(*Term)
+	pend := p.obj.get(p.off + 2).(*Term)
+	registered := fr.resume != nil
 	if wr.Val == 0 && rd.Val == 0 {
+		if registered {
+			fr.resume = nil
+			it.set(p.obj, p.off+2, it.ts.Const(32, pend.Val-1))
+		}
 		it.set(p.obj, p.off, it.ts.Const(32, 1))
 		it.mutexOwner()[mutexKey(p)] = g.id
 		it.visible(g)
 		return nil, stOK
+	}
+	if !registered {
+		fr.resume = &waiter{g: g}
+		it.set(p.obj, p.off+2, it.ts.Const(32, pend.Val+1))
 	}
 	return nil, it.block(g, mutexKey(p))
 }
@@ -619,7 +630,8 @@ func intrRWRLock(it *Interp, g *G, fr *Frame, args []Value, site ssa.Instruction
 	p := args[0].(*Ptr)
 	wr := p.obj.get(p.off).(*Term)
 	rd := p.obj.get(p.off + 4).(*Term)
-	if wr.Val == 0 {
+	pend := p.obj.get(p.off + 2).(*Term)
+	if wr.Val == 0 && pend.Val == 0 {
 		it.set(p.obj, p.off+4, it.ts.Const(32, rd.Val+1))
 		it.visible(g)
 		return nil, stOK
